@@ -34,6 +34,15 @@ CHECKS = {
         note="reference = ref/gto.py (closed-form solid harmonics in exact rationals, 30-node Gauss-Hermite); screened contributions (<1e-15 prefactor) are computed by the reference and added to the tolerance",
         design="DESIGN.md §2 C06",
     ),
+    "C09": dict(
+        level="exploration",
+        technique="deviation-bounded enumeration over the 13 dump formats + full product (contraction x orbital kind x target x allow_changes); deep bit-exact snapshot of a twin object vs the dumped object",
+        text="Every object of the C02 space (k<=1 quick, k<=2 thorough; QCSchema always k<=2) is dumped with allow_changes False/True, three times, with read-only arrays and through dump_many; "
+        "objects needing conversion (generalized contractions, occs_aminusb) for every wavefunction target; write_input for both programs. Snapshots, member identity, return-value contract and "
+        "equivalence of converted objects (density, spin density, nelec, spinpol, basis functions in order).",
+        note="twin object built by the same deterministic constructor provides the 'before' snapshot, so observing does not disturb the object under test",
+        design="DESIGN.md §2 C09",
+    ),
     "C10": dict(
         level="exploration",
         technique="exhaustive enumeration: full products of convention tables, complete small hyperoctahedral groups and bounded Cayley-graph BFS, on the real conversion functions",
